@@ -101,13 +101,16 @@ Definition anchors (ds : list decl) (x : extras) (names : list (sym * string)) (
     existsb (fun d => negb (N.eqb (d_kind d) 0) && String.eqb (name_of names (d_kind d, d_id d)) n && path_eqb (pathof (d_scope d)) p) ds
     || existsb (fun v => String.eqb (snd v) n && path_eqb (pathof (Some (fst v))) p) (x_vals x) in
   let inner := fun n => in_str n (map snd locals ++ x_members x ++ map (fun f => name_of names (4%N, f)) (x_methods x)) in
+  (* a namespace is written out when a struct / enum / global / function lives in it or in a namespace inside it *)
+  let suffix_of := fix suffix_of (p q : list string) : bool :=          (* p is q or an enclosing namespace of q *)
+    path_eqb p q || match q with [] => false | _ :: r => suffix_of p r end in
+  let live := fun p => existsb (fun d => negb (N.eqb (d_kind d) 0) && suffix_of p (pathof (d_scope d))) ds in
   let sites := all_scopes ds in
   map (fun e : sym * string =>
          let '((k, i), leaf) := e in
          let t := match find (fun d => sym_eqb (d_kind d, d_id d) (k, i)) ds with Some d => pathof (d_scope d) | None => [] end in
-         let p := Scopes.emit is_ns has inner [] t leaf in     (* the flag depends on the use site only through `hidden` *)
          "Q:" ++ show_N k ++ ":" ++ show_N i ++ "=" ++
-         String.concat "" (map (fun u => if Scopes.p_abs (Scopes.emit is_ns has inner (pathof u) t leaf) then "1" else "0") sites))
+         String.concat "" (map (fun u => if Scopes.p_abs (Scopes.emit is_ns has inner live (pathof u) t leaf) then "1" else "0") sites))
       (filter (fun e : sym * string => negb (N.eqb (fst (fst e)) 0)) (fold_right insert_s [] names)).
 
 Definition run_top (line : string) : string :=
